@@ -3,7 +3,7 @@
    is shown equal to a declarative relation and to plain equality / prefix tests on literal patterns.
    The command: which subject is matched (Rm.rm_matches), that a matching entry is removed whole and in
    the right order (C15), and only inside files/ and info/ (C11).  Proofs in Proofs/GlobProofs.v. *)
-From TV Require Import Prelude.Str Prelude.PosixPath Logic.Glob Logic.GlobSpec Cmd.Rm Proofs.GlobProofs Prog.Prog Cmd.Scan Proofs.ProgProofs Proofs.RmDecision.
+From TV Require Import Prelude.Str Prelude.PosixPath Logic.Glob Logic.GlobSpec Cmd.Rm Proofs.GlobProofs Prog.Prog Cmd.Scan Proofs.ProgProofs Proofs.RmDecision Proofs.RmLive.
 Open Scope N_scope.
 
 Theorem glob_match_iff : forall items s, glob_match items s = true <-> gmatch items s.
@@ -47,6 +47,28 @@ Example matching_removal_accepted :
     [(ReadText ($"/t/info/x.trashinfo"), RStr ($"[Trash Info]" ++ [10] ++ $"Path=/home/u/abc" ++ [10])); (Remove ($"/t/files/x"), RUnit);
      (Remove ($"/t/info/x.trashinfo"), RUnit)] <> None.
 Proof. vm_compute. discriminate. Qed.
+
+(* ... and EVERY matching entry is removed: in every run of the handler that ends normally, each info file whose contents as read are
+   approved is followed - before the next info file is read - by its payload answering "absent" or being removed with success, and
+   then by the info file being removed with success (the monitor RmLive.live_step ends Idle).  A removal the file system refuses
+   twice (remove, then rmtree) ends the run with that error instead. *)
+Theorem rm_removes_every_matching : forall pattern td volume,
+  all_runs (fun t out => forall a, out = Done a -> accepts (live_step pattern volume) Idle t = Some Idle)
+           (rm_handle pattern tt (Found td volume)).
+Proof. exact rm_removes_every_matching_lemma. Qed.
+Print Assumptions rm_removes_every_matching.
+
+Example skipped_matching_entry_is_noticed :
+  accepts (live_step ($"a*") [c_slash]) Idle
+    [(ReadText ($"/t/info/x.trashinfo"), RStr ($"[Trash Info]" ++ [10] ++ $"Path=/home/u/abc" ++ [10])); (Lexists ($"/t/files/x"), RBool true);
+     (Remove ($"/t/files/x"), RUnit)] = Some (Info ($"/t/info/x.trashinfo")).
+Proof. vm_compute. reflexivity. Qed.
+Example whole_removal_ends_idle :
+  accepts (live_step ($"a*") [c_slash]) Idle
+    [(ReadText ($"/t/info/x.trashinfo"), RStr ($"[Trash Info]" ++ [10] ++ $"Path=/home/u/abc" ++ [10])); (Lexists ($"/t/files/x"), RBool true);
+     (Remove ($"/t/files/x"), RErr (OSError 21)); (Rmtree ($"/t/files/x"), RUnit); (Remove ($"/t/info/x.trashinfo"), RUnit);
+     (ReadText ($"/t/info/y.trashinfo"), RStr ($"[Trash Info]" ++ [10] ++ $"Path=/home/u/zzz" ++ [10]))] = Some Idle.
+Proof. vm_compute. reflexivity. Qed.
 
 Theorem rm_subject : forall c pat loc,
   rm_matches (c :: pat) loc = Some (fnmatchcase (if c =? c_slash then loc else basename loc) (c :: pat)).
